@@ -373,8 +373,8 @@ Definition outcome_eqb (a b : outcome) : bool := match a, b with Extracted, Extr
 (* expected: outcome, listing of the whole jail, number of nodes, number of distinct inodes *)
 Definition check_fs (fs : fsys) (lst : list (path * xent)) (n d : N) : bool :=
   forallb (check_ent fs) lst && (tree_size (f_root fs) =? 1 + n) && (distinct (tree_inos (f_root fs)) =? d).
-Definition check_extract (r : fsys * outcome) (e : outcome * list (path * xent) * N * N) : bool :=
-  match e with (o, lst, n, d) => outcome_eqb (snd r) o && check_fs (fst r) lst n d end.
+Definition check_extract (r : fsys * outcome * bool) (e : outcome * list (path * xent) * N * N) : bool :=
+  match e with (o, lst, n, d) => outcome_eqb (snd (fst r)) o && check_fs (fst (fst r)) lst n d end.
 """
 
 
